@@ -126,6 +126,27 @@ class C03(Plugin):
             for tb in ("etree", "dom"):
                 out.append({"k": 1, "tree": tb, "ns": True, "fragment": False, "container": "div", "scripting": False, "markup": m})
                 out.append({"k": 1, "tree": tb, "ns": False, "fragment": True, "container": "table", "scripting": True, "markup": m})
+        # input that ends anywhere: every prefix of markup rich in character references, quotes, comments, doctypes,
+        # CDATA, raw-text and script content (end of input reached in every tokenizer state, also inside references)
+        for m in ["<a href=\"?a=1&copy=2&amp;x&lt\" title='x &lt &#x26;&#38 &notin; &notit;' b=&amp c=&gt>t&ampx &copy; &#xD800;&#0;</a>",
+                  "<!DOCTYPE html PUBLIC \"-//W3C//DTD HTML 4.01//EN\" 'x'><!--a--b--!>--><svg><![CDATA[x]]y]]></svg><?pi?>",
+                  "<script><!--<script>x</script>--></script><textarea>&lt</textarea><title>&amp</title><plaintext>&x"]:
+            for i in range(len(m) + 1):
+                out.append({"k": 1, "tree": "dom" if i % 2 else "etree", "ns": bool(i % 3), "fragment": i % 5 == 0, "container": "div",
+                            "scripting": False, "markup": m[:i]})
+        # the same parser object used for a second call, and a parse that restarts itself (a <meta> declaring another
+        # encoding beyond the prescanned 1024 bytes), with both builders
+        for tb in ("etree", "dom"):
+            for m in ("<p>x", "<table><tr><td>y", "", "<frameset>"):
+                out.append({"k": 1, "tree": tb, "ns": True, "fragment": False, "container": "div", "scripting": False, "markup": m,
+                            "twice": True})
+                out.append({"k": 1, "tree": tb, "ns": False, "fragment": True, "container": "td", "scripting": False, "markup": m,
+                            "twice": True})
+            late = b"<!-- " + b"x" * 1100 + b" --><meta charset=koi8-r><p>\xc1\xc2"
+            out.append({"k": 1, "tree": tb, "ns": True, "fragment": False, "container": "div", "scripting": False, "markup": None,
+                        "bytes": list(late)})
+            out.append({"k": 1, "tree": tb, "ns": True, "fragment": False, "container": "div", "scripting": False, "markup": None,
+                        "bytes": list(late), "twice": True})
         for m in gen_markup.phase_directed(gen_markup.dispatch_keys()):
             out.append({"k": 1, "tree": "dom" if len(out) % 2 else "etree", "ns": True, "fragment": False, "container": "div",
                         "scripting": False, "markup": m})
@@ -162,6 +183,12 @@ class C03(Plugin):
         tbm = html5lib.getTreeBuilder("etree", fullTree=True) if case["tree"] == "etree" else html5lib.getTreeBuilder("dom")
         p = html5lib.HTMLParser(tree=tbm, namespaceHTMLElements=case["ns"])
         try:
+            if case.get("twice"):
+                # "they never raise": neither does a second call on the same parser object
+                if case["fragment"]:
+                    p.parseFragment(data, container=case["container"], scripting=case["scripting"])
+                else:
+                    p.parse(data, scripting=case["scripting"])
             if case["fragment"]:
                 doc = p.parseFragment(data, container=case["container"], scripting=case["scripting"])
             else:
